@@ -51,6 +51,12 @@ Pool(kind, nv) ==
          <<[m |-> "where", crit |-> [k |-> "in", a |-> Fld("T1", "b"), items |-> <<NumV(nv), NegV(nv + 1)>>]], 2>>,
          <<[m |-> "where", crit |-> [k |-> "between", a |-> Fld("T1", "b"), lo |-> NumV(nv), hi |-> FltV(nv + 1)]], 2>>,
          <<[m |-> "where", crit |-> Cmp(Fld("T1", "c"), BoolV(nv))], 1>>,
+         \* a constant in EVERY operand slot, subject included (the value list has to follow the text left to right)
+         <<[m |-> "where", crit |-> [k |-> "between", a |-> [k |-> "bin", op |-> "+", l |-> Fld("T1", "b"), r |-> NumV(nv)], lo |-> NumV(nv + 1), hi |-> NumV(nv + 2)]], 3>>,
+         <<[m |-> "where", crit |-> [k |-> "in", a |-> [k |-> "bin", op |-> "+", l |-> Fld("T1", "b"), r |-> NumV(nv)], items |-> <<NumV(nv + 1), StrV(nv + 2)>>]], 3>>,
+         <<[m |-> "where", crit |-> [k |-> "bin", op |-> "=", l |-> [k |-> "bin", op |-> "-", l |-> NumV(nv), r |-> Fld("T1", "b")],
+                                       r |-> [k |-> "call", f |-> "COALESCE", args |-> <<Fld("T1", "c"), NumV(nv + 1), StrV(nv + 2)>>]]], 3>>,
+         <<[m |-> "where", crit |-> [k |-> "not", a |-> [k |-> "isnull", a |-> [k |-> "bin", op |-> "*", l |-> NumV(nv), r |-> Fld("T1", "b")]]]], 1>>,
          <<[m |-> "limit", n |-> 100 + nv], 1>>, <<[m |-> "offset", n |-> 100 + nv], 1>> }
      ELSE {})
     \cup (IF kind \in {"insert", "upsert"} THEN
